@@ -58,7 +58,7 @@ func c14flags(c *Ctx, gbin string, server *srv.Server, items []corpus.Item, tmp 
 	setValues := []string{
 		"supplier.name=X", "lines=", "lines=1", "lines[0].quantity=abc", "lines.0.quantity=-1e999", "totals=null", "$schema=x", "$schema=", "=x", "a.b.c.d.e.f=1",
 		"lines[99999999].quantity=1", "lines[-1]=x", "supplier=[]", "supplier.tax_id.country=ZZZZ", "currency=", "issue_date=0000-00-00", "tax.prices_include=" + strings.Repeat("A", 5000),
-		"lines[0].taxes[0].percent=-100%", "lines[0].item.price=1e-400", "code=\x00", "supplier.name=\"quoted\"", "..=1", "lines[0]..x=1", "[0]=1", "lines[a]=1",
+		"lines[0].taxes[0].percent=-100%", "lines[0].item.price=1e-400", "code=\x01\x7f", "supplier.name=\"quoted\"", "..=1", "lines[0]..x=1", "[0]=1", "lines[a]=1",
 	}
 	var cases [][]string
 	for _, sv := range setValues {
@@ -122,6 +122,10 @@ func c14flags(c *Ctx, gbin string, server *srv.Server, items []corpus.Item, tmp 
 		case err != nil && err.Error() == "timeout":
 			c.R.Fail("hang:cli-flags:"+name, fmt.Sprintf("`gobl %s` did not finish within 60 s", strings.Join(shown, " ")), wit)
 		case err != nil:
+			if _, ok := err.(*exec.ExitError); !ok {
+				c.R.Count("cli_flag_cases_not_started", 1) // the harness could not start the process
+				return
+			}
 			if ee, ok := err.(*exec.ExitError); ok && ee.ExitCode() != 1 {
 				c.R.Fail(fmt.Sprintf("cli-exit:%s:%d", name, ee.ExitCode()), fmt.Sprintf("`gobl %s` ended with exit code %d: %s", strings.Join(shown, " "), ee.ExitCode(), trunc(out)), wit)
 			} else if strings.TrimSpace(out) == "" {
